@@ -23,6 +23,14 @@ structure Cfg.Good (c : Cfg) : Prop where
   rollupSwap : c.rollupSwap = kSwap
   pmemFields : c.pmemFields = pmemNames
   pfullmemFields : c.pfullmemFields = pfullmemNames
+  /-- `\nPrivate.*:\s+(\d+)` -/
+  privatePat : c.privatePat = .lit 10 :: (Re.lits kPrivate ++ [.star .dot, .lit 58, .plus .ws, .cap .digit])
+  /-- `\nPss\:\s+(\d+)` -/
+  pssPat : c.pssPat = .lit 10 :: (Re.lits kPss ++ [.plus .ws, .cap .digit])
+  /-- `\nSwap\:\s+(\d+)` -/
+  swapPat : c.swapPat = .lit 10 :: (Re.lits kSwap ++ [.plus .ws, .cap .digit])
+  /-- `_parse_smaps_rollup` is NOT wrapped by `@wrap_exceptions` -/
+  rollupWrapped : c.rollupWrapped = false
 
 /-! ### one step of `get_blocks` -/
 
